@@ -65,7 +65,7 @@ fn case_strategy() -> BoxedStrategy<Case> {
     (
         prop_oneof![Just(Kind::Chunk), Just(Kind::Pad), Just(Kind::Tx), Just(Kind::Reg)],
         prop_oneof![Just(Path::ClientPut), Just(Path::UnpaidUpdate), Just(Path::Replicated)],
-        prop_oneof![3 => Just(Mismatch::None), 3 => Just(Mismatch::RandomKey), 3 => Just(Mismatch::OtherObjectKey), 1 => Just(Mismatch::MixedOwners)],
+        prop_oneof![3 => Just(Mismatch::None), 3 => Just(Mismatch::RandomKey), 3 => Just(Mismatch::OtherObjectKey), 2 => Just(Mismatch::MixedOwners)],
         prop_oneof![30 => Just(Shape::Ok), 1 => Just(Shape::Oversized), 1 => Just(Shape::ExactlyAtSizeLimit), 2 => Just(Shape::Headerless), 2 => Just(Shape::UnknownKindTag), 2 => Just(Shape::TruncatedPayload)],
         any::<bool>(),
         any::<bool>(),
@@ -135,8 +135,11 @@ fn check(case: &Case, ctx: &mut Ctx) {
         Mismatch::MixedOwners => {
             if case.kind == Kind::Tx && case.path == Path::Replicated {
                 let own = fix::transaction(20 + case.seed as u64 % 5, case.seed as u64 % 4, true);
-                let foreign = fix::transaction(60 + case.seed as u64 % 5, 1, true);
-                rec = fix::transactions_record(pl.key.clone(), &vec![foreign, own]);
+                let foreign = fix::transaction(60 + (case.seed as u64 / 5) % 11, 1, true);
+                // both orders: a check that only looks at the first entry is wrong in a different
+                // way for each (own first: the foreign entry slips in under this key)
+                let list = if case.seed % 2 == 0 { vec![foreign, own] } else { vec![own, foreign] };
+                rec = fix::transactions_record(pl.key.clone(), &list);
             }
             false
         }
